@@ -19,7 +19,10 @@
 package didjwk
 
 import (
+	"crypto"
+	"crypto/ecdsa"
 	"encoding/base64"
+	"errors"
 	"fmt"
 	"github.com/nuts-foundation/nuts-node/vdr/resolver"
 	"reflect"
@@ -80,6 +83,14 @@ func (w Resolver) Resolve(id did.DID, _ *resolver.ResolveMetadata) (*did.Documen
 		return nil, nil, fmt.Errorf("failed to get PublicRawKeyOf(key): %w", err)
 	}
 
+	// The JWK parser does not check EC coordinates against the curve: a point that is not on the curve
+	// (or coordinates that do not even fit the curve) is not a public key and can't be marshalled again.
+	if ecKey, ok := publicRawKey.(*ecdsa.PublicKey); ok {
+		if !ecKey.Curve.IsOnCurve(ecKey.X, ecKey.Y) {
+			return nil, nil, errors.New("invalid EC public key in DID JWK: point is not on the curve")
+		}
+	}
+
 	// Create a new DID verification method.
 	// See https://www.w3.org/TR/did-core/#verification-methods
 	keyID := did.DIDURL{DID: id}
@@ -138,7 +149,7 @@ func rawPrivateKeyOf(key jwk.Key) (any, error) {
 
 	// If rawUnspecifiedKey and rawPublicKey are the same then there is no private key to return. This can occur
 	// since a JWK can contain either a public/private keypair or simply a public key.
-	if reflect.DeepEqual(rawUnspecifiedKey, rawPublicKey) {
+	if equalRawKeys(rawUnspecifiedKey, rawPublicKey) {
 		// The key.Raw() result was the same as the PublicKeyOf(key).Raw() result, which indicates that
 		// no private key is contained in this JWK and therefore we cannot return any private key. If
 		// this function is intended to be used in a more general purpose way it might make sense to
@@ -148,4 +159,14 @@ func rawPrivateKeyOf(key jwk.Key) (any, error) {
 
 	// As rawUnspecifiedKey and rawPublicKey are not the same we have a private key to return
 	return rawUnspecifiedKey, nil
+}
+
+// equalRawKeys compares two raw keys. The Equal method of the crypto primitives is preferred over reflect.DeepEqual:
+// the latter also compares the internal representation (e.g. a nil versus an empty slice inside a big.Int),
+// which differs between calls for the same key.
+func equalRawKeys(a any, b any) bool {
+	if key, ok := a.(interface{ Equal(x crypto.PublicKey) bool }); ok {
+		return key.Equal(b)
+	}
+	return reflect.DeepEqual(a, b)
 }
